@@ -1058,8 +1058,9 @@ class ModelIO:
 
 
 class ModelShutil:
-    def __init__(self, fs):
+    def __init__(self, fs, dbs=None):
         self.fs = fs
+        self.dbs = dbs
 
     def rmtree(self, path):
         path = str(path)
@@ -1068,6 +1069,10 @@ class ModelShutil:
             del self.fs.files[q]
         for q in [q for q in self.fs.dirs if q == path or q.startswith(path + '/')]:
             self.fs.dirs.discard(q)
+        for q in self.dbs or ():
+            if q.startswith(path + '/'):  # the index file went with the tree: an index created there later is empty
+                db = self.dbs[q]
+                db.versions, db.next_id, db.ckpt = [[]], 1, 0
 
 
 # ------------------------------------------------------------------ model zlib (deterministic member of the contract)
@@ -1249,12 +1254,14 @@ def install(fs, dbs, C, U):
                     raise FileNotFoundError(path)
                 dbs[path] = ModelDB(fs, path)
                 fs.files[path] = Node()
+        elif create and path not in fs.files:
+            fs.files[path] = Node()  # re-created after the folder was removed (init_container(clear=True))
         return ModelSession(dbs[path])
 
     C.get_session = get_session
     C.Engine = Engine
     C.io = ModelIO
-    C.shutil = ModelShutil(fs)
+    C.shutil = ModelShutil(fs, dbs)
     U.fcntl = ModelFcntl(fs)
     U.zlib = fs.zl = ModelZlib()
     return mos, mopen
